@@ -226,6 +226,13 @@ func c20Judge(r *mc.Run, id string, timeout, maxDelay, lat time.Duration, k int,
 			r.Violate(sigBase+"gives-up-late", id, fmt.Sprintf("gave up after %v, later than timeout %v + one retry delay %v (+ one attempt latency %v)", elapsed, timeout, maxDelay, lat), detail)
 			out = "late"
 		}
+		if in.calls == 0 {
+			r.Violate(sigBase+"no-attempt", id, "the getter gave up without a single attempt", detail)
+			out = "no-attempt"
+		} else if k == 0 {
+			r.Violate(sigBase+"first-success-lost", id, "the wrapped getter succeeds at its first call but the retrying getter returns an error", detail)
+			out = "first-success-lost"
+		}
 		if k >= 0 && in.calls <= k && elapsed < timeout {
 			r.Violate(sigBase+"gives-up-early", id, fmt.Sprintf("gave up after %v and %d attempts, before the timeout %v, although attempt %d would have succeeded", elapsed, in.calls, timeout, k+1), detail)
 			out = "early"
